@@ -180,6 +180,34 @@ def many_table(ctx, rep, rule):
         rep.check(rule, "OpGetMany::to_python|GetResponse/%s/later-varbinds-still-read" % k, bool(cont) and all(cont),
                   "the loop goes on to the next varbind", "a %s value ends the processing of the reply: later values are missing from the dict" % k,
                   body.loc(), obligation=True)
+    # a data value is stored on *every* way through the loop body, not only on some: nothing but the value kind (and
+    # errors, which leave the loop) decides whether a varbind of the reply reaches the dict
+    nxb = [b for b in body.calls() if (callee_path(b.term) or "").endswith("Iterator>::next")]
+    some_of = {}
+    for swb, term in flow.discr_switches(body, prov, lambda t: t[0] == "call" and (t[1] or "").endswith("Iterator>::next")):
+        ve = flow.variant_edges(body, swb) or {}
+        if "Some" in ve:
+            some_of[swb.idx] = ve["Some"]
+    for k in DATA_KINDS:
+        def evk(t, k=k):
+            if t == ("discr", ("arg", 1)):
+                return pv["GetResponse"]
+            if is_value_discr(t):
+                return vv[k]
+            return None
+        fb, _ = cells.feasible(body, prov, evk)
+        cut = {(b.idx, s_) for b in setters for s_ in b.succs()}
+        goals = {b.idx for b in nxb if b.idx in fb}
+        skipping = None
+        for sw_idx, tgt in some_of.items():
+            if sw_idx in fb and tgt in fb and goals and setters:
+                pth = cells.path_within(body, fb, goals, cut, start=tgt)
+                if pth:
+                    skipping = pth
+        if some_of and setters:
+            rep.check(rule, "OpGetMany::to_python|GetResponse/%s/stored-on-every-path" % k, skipping is None, "no way round set_item for a data value",
+                      "a varbind carrying %s can be passed over (blocks %s) for a reason other than its value kind: it is missing from the result dict" %
+                      (k, skipping), body.loc(), obligation=True)
     for k in DATA_KINDS:
         tg = cell("GetResponse", k)
         kept = not through_filter or cells.filter_verdict(facts, body, prov, vcell(k)) is not False
@@ -323,3 +351,43 @@ def exc_table(ctx, rep, rule):
                     got = a[0].get("s")
         rep.check(rule, "class %s base" % cls.split("::")[-1], got == base, "derives from %s" % base.split("::")[-1],
                   "%s derives from %s, documented base is %s" % (cls, got, base), cb.loc())
+
+
+def relative_base(ctx, rep, rule):
+    """A RELATIVE-OID varbind name is resolved against the varbind right before it (the last one decoded so far), as the
+    encoder on the agent's side abbreviates it - not against the first varbind of the reply or any other fixed one."""
+    facts = ctx.facts
+    body = None
+    for b in facts.body_list:
+        if "SnmpGetResponse" in b.path and b.path.endswith("::try_from"):
+            body = b
+    if body is None:
+        rep.missing(rule, "SnmpGetResponse::try_from")
+        return
+    prov = flow.Prov(body)
+    calls = [b for b in body.calls() if (callee_path(b.term) or "").endswith("::try_normalize") and len(b.term["args"]) > 1]
+    if not calls:
+        rep.inconclusive(rule, "SnmpGetResponse::try_from|relative-oid base", "no try_normalize call found", body.loc())
+        return
+    for b in calls:
+        t = prov.operand(b.term["args"][1])
+        def last_elem(x):
+            if x[0] == "call" and (x[1] or "").split("::")[-1] == "last":
+                return True
+            if x[0] == "call" and (x[1] or "").split("::")[-1] == "index" and len(x[2]) == 2:
+                return flow.mentions(x[2][1], lambda y: y[0] == "bin" and y[1] in ("Sub", "SubWithOverflow") and y[3] == ("const", 1) and
+                                     flow.mentions(y[2], lambda z: z[0] == "call" and (z[1] or "").split("::")[-1] == "len"))
+            return False
+        def first_elem(x):
+            if x[0] == "call" and (x[1] or "").split("::")[-1] == "first":
+                return True
+            return x[0] == "call" and (x[1] or "").split("::")[-1] in ("index", "get") and len(x[2]) == 2 and x[2][1] == ("const", 0)
+        if flow.mentions(t, last_elem):
+            rep.ok(rule, "SnmpGetResponse::try_from|relative-oid base", "the preceding varbind", body.loc(b.term["line"]), obligation=True)
+        elif flow.mentions(t, first_elem):
+            rep.violation(rule, "SnmpGetResponse::try_from|relative-oid base", "a relative name is resolved against the first varbind of the reply (%s), not "
+                          "against the one before it: from the third varbind on values are filed under OIDs the agent did not send" % flow.fmt(t)[:80],
+                          body.loc(b.term["line"]), obligation=True)
+        else:
+            rep.inconclusive(rule, "SnmpGetResponse::try_from|relative-oid base", "base is %s" % flow.fmt(t)[:100], body.loc(b.term["line"]))
+
